@@ -24,14 +24,16 @@
      PortAppended      - ":80" / ":443" is appended to whatever the authority is before it is resolved, so an
                          authority that already has a port ("h:8080", "h:") does not resolve: the URL is refused
      FragmentKept      - the fragment is not removed: it stays in the query (or in the path when there is no query)
-   AsFound is the set the code shows today; `Client::get("http://127.0.0.1:8080/")` = Err is PortAppended. *)
+   `Client::get("http://127.0.0.1:8080/")` = Err("Invalid URL") was PortAppended: found by this module, repaired in /repo
+   (fix: ... explicit port), so AsFound - the set the code shows today - is the other three. *)
 EXTENDS Naturals, Sequences, FiniteSets, TLC
 
 CONSTANTS Dev
 
 HostToks == {"localhost", "127.0.0.1"}
 PortToks == {"80", "8080"}
-AsFound  == {"SplitAtSlashOnly", "UserinfoInHost", "PortAppended", "FragmentKept"}
+AllDevs  == {"SplitAtSlashOnly", "UserinfoInHost", "PortAppended", "FragmentKept"}
+AsFound  == AllDevs \ {"PortAppended"}          \* PortAppended was repaired (KNOWN_FINDINGS.txt); it stays as a sensitivity config
 
 RECURSIVE Cat(_)
 Cat(s) == IF s = <<>> THEN "" ELSE Head(s) \o Cat(Tail(s))
@@ -45,6 +47,10 @@ LastAt(s, i) == IF i = 0 THEN 0 ELSE IF s[i] = "@" THEN i ELSE LastAt(s, i - 1)
 From(s, i) == IF i > Len(s) THEN <<>> ELSE SubSeq(s, i, Len(s))
 Upto(s, i) == IF i < 1 THEN <<>> ELSE SubSeq(s, 1, i)
 Has(s, x) == \E i \in 1..Len(s) : s[i] = x
+
+\* a port is *DIGIT and at most 65535: the tokens are numbers, so "80" "80" is the port 8080 ("8080" "80" is too large); an
+\* empty port means the default (RFC 3986 3.2.3).  Everywhere else the model does not look inside concatenated tokens.
+PortOk(p) == p \in {<<>>, <<"80">>, <<"8080">>, <<"80", "80">>}
 
 Refused == [ok |-> FALSE, host |-> "", port |-> "", path |-> "", query |-> ""]
 
@@ -61,8 +67,7 @@ ParseD(u, D) ==
                 /\ ~ Has(ui, "@")
                 /\ IF "PortAppended" \in D THEN Len(hp) = 1
                    ELSE \/ Len(hp) = 1
-                        \/ Len(hp) = 2 /\ hp[2] = ":"
-                        \/ Len(hp) = 3 /\ hp[2] = ":" /\ hp[3] \in PortToks
+                        \/ Len(hp) >= 2 /\ hp[2] = ":" /\ PortOk(From(hp, 3))
       pEnd  == IF "FragmentKept" \in D THEN {"?"} ELSE {"?", "#"}
       p     == FirstIn(rest, pEnd, 1)
       pathT == Upto(rest, p - 1)                            \* empty or starts with "/"
@@ -77,7 +82,7 @@ ParseD(u, D) ==
       fragOk == ~ Has(frag, "#")
   IN IF ~ hostOk \/ ~ fragOk THEN Refused
      ELSE [ok |-> TRUE, host |-> Cat(hp),
-           port |-> IF Len(hp) = 3 THEN hp[3] ELSE "",
+           port |-> Cat(From(hp, 3)),
            path |-> IF pathT = <<>> THEN "/" ELSE Cat(pathT),
            query |-> Cat(queryT)]
 
